@@ -140,10 +140,31 @@ pub fn event_line(e: &Event) -> String {
     )
 }
 
+/// Event lines for determinism comparisons (profile prefix, process layouts): every path is
+/// replaced by the number of its first occurrence in this trace. What is compared is the
+/// structure of the run - which call, on which file of the run, with which sizes and results -
+/// not the spelling of names, which code under test may legitimately build from a pid or a
+/// process-wide counter (temporary files).
+pub fn canon_event_lines(tr: &[Event]) -> Vec<String> {
+    let mut ids: BTreeMap<&str, usize> = BTreeMap::new();
+    let mut out = Vec::with_capacity(tr.len());
+    for e in tr {
+        let line = event_line(e);
+        if e.path.starts_with('<') {
+            out.push(line);
+            continue;
+        }
+        let n = ids.len();
+        let id = *ids.entry(e.path.as_str()).or_insert(n);
+        out.push(line.replacen(&e.path, &format!("path#{}", id), 1));
+    }
+    out
+}
+
 pub fn trace_digest(tr: &[Event]) -> u64 {
     let mut s = String::new();
-    for e in tr {
-        s.push_str(&event_line(e));
+    for l in canon_event_lines(tr) {
+        s.push_str(&l);
         s.push('\n');
     }
     fnv(s.as_bytes())
